@@ -270,6 +270,15 @@ fn run_case(case: &Value, dir: &Path) -> Value {
                     }
                 });
             }
+            // What an update does to the (corrupt) archive: a short script of writes.
+            let objs: Vec<(uri::Rsync, rpki::rrdp::Hash)> = case["objs"].as_array().map(|l| l.iter().filter_map(|o| {
+                let u = uri::Rsync::from_slice(&unhex(o[0].as_str()?)?).ok()?;
+                let h: [u8; 32] = unhex(o[1].as_str()?)?.as_slice().try_into().ok()?;
+                Some((u, rpki::rrdp::Hash::from(h)))
+            }).collect()).unwrap_or_default();
+            if case.get("objs").is_some() {
+                run("write", &mut || write_script(path.clone(), &objs));
+            }
             drop(run);
             json!({
                 "calls": calls, "panic": panic,
@@ -278,6 +287,61 @@ fn run_case(case: &Value, dir: &Path) -> Value {
         }
         _ => json!({"skip": "type"})
     }
+}
+
+/// Publishes, updates and deletes objects of sizes around the page and header boundaries in
+/// the archive at `path`, then updates the state and verifies. One word per step.
+fn write_script(path: Arc<PathBuf>, objs: &[(uri::Rsync, rpki::rrdp::Hash)]) -> String {
+    use routinator::utils::archive::{ArchiveError, PublishError};
+    let mut archive = match RrdpArchive::try_open(path.clone()) {
+        Ok(Some(a)) => a,
+        Ok(None) => return "open-notfound".into(),
+        Err(e) => return format!("open-{}", if e.is_fatal() { "fatal" } else { "retry" }),
+    };
+    let aerr = |e: &ArchiveError| match e { ArchiveError::Corrupt(_) => "corrupt", ArchiveError::Io(_) => "io" };
+    let mut steps = Vec::new();
+    // object sizes: header 33 + name + meta 32 + data, rounded up to 256
+    let new_uri = |i: usize| uri::Rsync::from_slice(format!("rsync://a.example/m/new{i}.roa").as_bytes()).unwrap();
+    let overhead = 33 + 32 + new_uri(0).as_slice().len();
+    let lens = [0usize, 256 - overhead, 256 - overhead, 256 - overhead + 1, 512 - overhead, 100, 512 - overhead - 33, 300];
+    for (i, len) in lens.iter().enumerate() {
+        let content = vec![i as u8; *len];
+        steps.push(format!("p{}={}", i, match archive.publish_object(&new_uri(i), &content) {
+            Ok(()) => "ok",
+            Err(PublishError::AlreadyExists) => "exists",
+            Err(PublishError::Archive(ref e)) => aerr(e),
+        }));
+        // existing objects: grow (must move), same size, delete
+        if let Some((u, h)) = objs.get(i) {
+            use routinator::collector::verif_codec::AccessError;
+            let res = match i % 3 {
+                0 => archive.update_object(u, *h, &vec![0xab; 700]),
+                1 => archive.update_object(u, *h, &[1, 2, 3]),
+                _ => archive.delete_object(u, *h),
+            };
+            steps.push(format!("{}{}={}", ["g", "u", "d"][i % 3], i, match res {
+                Ok(()) => "ok",
+                Err(AccessError::NotFound) => "notfound",
+                Err(AccessError::HashMismatch) => "mismatch",
+                Err(AccessError::Archive(ref e)) => aerr(e),
+            }));
+        }
+    }
+    if let Some(Rec::State(state)) = Fields::parse(
+        "rpki_notify=68747470733a2f2f612f6e2e786d6c;session=000102030405060708090a0b0c0d0e0f;serial=78;\
+         updated_ts=1700000000;best_before_ts=1700003600;last_modified_ts=~;etag=2261;delta_state=.".replace(' ', "").as_str()
+    ).and_then(|f| Rec::build("state", &f)) {
+        steps.push(format!("s={}", match archive.update_state(&state) {
+            Ok(()) => "ok", Err(e) => if e.is_fatal() { "fatal" } else { "retry" }
+        }));
+    }
+    drop(archive);
+    steps.push(format!("v={}", match RrdpArchive::verify(path.as_ref()) {
+        Ok(_) => "ok",
+        Err(routinator::utils::archive::OpenError::NotFound) => "notfound",
+        Err(routinator::utils::archive::OpenError::Archive(ref e)) => aerr(e),
+    }));
+    steps.join(" ")
 }
 
 /// `rv-codec c27-child <cases.jsonl> <results> <start index> <byte offset of that case>`
@@ -613,6 +677,8 @@ const A_OBJECTS: usize = A_INDEX + 8 * (A_BUCKETS + 1);
 const OBJ_HEADER: usize = 33;                   // size, next, is_empty, name_len, data_len
 
 struct ArchiveInfo {
+    /// The first few objects still in the archive: URI and hash of the content.
+    objs: Vec<(Vec<u8>, Vec<u8>)>,
     data: Vec<u8>,
     /// Start positions of all blocks (objects and empties), in file order.
     blocks: Vec<usize>,
@@ -653,7 +719,10 @@ fn build_archive(rng: &mut Rng, dir: &Path, n_objects: usize, n_deleted: usize) 
     let slots = (0..=A_BUCKETS).map(|i| A_INDEX + 8 * i)
         .filter(|&p| data[p..p + 8].iter().any(|b| *b != 0)).collect();
     let probe = uris.last().map(|(u, _)| u.as_slice().to_vec()).unwrap_or_default();
-    ArchiveInfo { data, blocks, slots, probe }
+    let objs = uris.iter().skip(n_deleted).take(8).map(|(u, c)| {
+        (u.as_slice().to_vec(), rpki::rrdp::Hash::from_data(c).as_slice().to_vec())
+    }).collect();
+    ArchiveInfo { objs, data, blocks, slots, probe }
 }
 
 fn put(d: &mut [u8], pos: usize, v: u64) {
@@ -662,7 +731,14 @@ fn put(d: &mut [u8], pos: usize, v: u64) {
 
 fn archive_cases(rng: &mut Rng, dir: &Path, n_random: usize, res: &mut Vec<Value>) {
     let push = |res: &mut Vec<Value>, info: &ArchiveInfo, d: &[u8], how: &str| {
-        res.push(json!({"t": "archive", "data": to_sparse(d), "probe": hex(&info.probe), "how": how}));
+        // structural damage is also followed by a scripted sequence of writes
+        let writes = matches!(how, "valid" | "block-size" | "empty-size" | "next-pointer" | "two-cycle"
+            | "empty-chain-cycle" | "is-empty" | "name-len" | "data-len" | "index-slot" | "random");
+        let mut case = json!({"t": "archive", "data": to_sparse(d), "probe": hex(&info.probe), "how": how});
+        if writes {
+            case["objs"] = json!(info.objs.iter().map(|(u, h)| json!([hex(u), hex(h)])).collect::<Vec<_>>());
+        }
+        res.push(case);
     };
     for (n_obj, n_del) in [(5usize, 2usize), (0, 0), (40, 0)] {
         let info = build_archive(rng, dir, n_obj, n_del);
@@ -735,6 +811,16 @@ fn archive_cases(rng: &mut Rng, dir: &Path, n_random: usize, res: &mut Vec<Value
                     put(&mut d, field, v);
                     push(res, &info, &d, if field == b + 17 { "name-len" } else { "data-len" });
                 }
+            }
+        }
+        // empty blocks: sizes a few bytes off (not a multiple of the page size any more)
+        for &b in &info.blocks {
+            if base[b + 16] != 1 { continue }
+            let size = u64::from_ne_bytes(base[b..b + 8].try_into().unwrap());
+            for delta in [1i64, 5, 31, 32, 33, 34, 255, 256, -1, -33, -223, -224, -256] {
+                let mut d = base.clone();
+                put(&mut d, b, (size as i64 + delta).max(0) as u64);
+                push(res, &info, &d, "empty-size");
             }
         }
         // the state object's content (the codec inside the archive)
@@ -901,11 +987,14 @@ pub fn run_c27(ctx: &mut Ctx) {
         }
         // 3. the oracle
         if let Some(p) = panic {
+            // a panic of the write script is a class of its own
+            let label = if p.starts_with("write:") { format!("{label}-write") } else { label.clone() };
             let kind_of_panic =
                 if p.contains("capacity overflow") { "capacity-overflow" }
                 else if p.contains("divide by zero") || p.contains("remainder with a divisor of zero") { "division-by-zero" }
                 else if p.contains("overflow") { "arithmetic-overflow" }
                 else if p.contains("out of range") || p.contains("out of bounds") { "index" }
+                else if p.contains("assertion failed") { "assertion" }
                 else { "other" };
             ctx.oracle_fail(&format!("panic-{kind_of_panic}-{label}"), &format!("panic while reading {len} bytes: {p}"),
                             case, result.clone());
